@@ -11,3 +11,5 @@ mod c15_pure_pool;
 mod c17_defaults;
 #[cfg(kani)]
 mod c25_price_feed;
+#[cfg(kani)]
+mod c16_config_keys;
